@@ -5,7 +5,8 @@ PROP, LEVEL, ENGINE = "C02", "other", "jxvc"
 DESIGN_REF = "DESIGN.md section 3 C02"
 TECHNIQUE = ("deductive, value-universal/shape-bounded: contract chain intermediates -> Green's function -> Wick lemma -> energy "
              "with callees replaced by their contracts; CI kinds vs the Fock-space estimator; AD kinds by a lemma on wave_function_auto "
-             "for an arbitrary bra, order by order in the finite-difference step")
+             "for an arbitrary bra, order by order in the finite-difference step"
+             " Plus all-sizes obligations (kind proof): tensor normal forms with SYMBOLIC sizes of the same traced functions (engine B-T, DESIGN 2.3b).")
 EXPLANATION = ("all-sizes (proof): en.allsizes.{uhf,rhf[r=0],rhf[r=1]} - the real measurement intermediates composed with the real energy equal the Wick form in the full Green's function for ALL norb, electron numbers and numbers of Cholesky vectors (tensor normal form with symbolic sizes, DESIGN 2.3b). Identities of rational functions in ALL symbolic inputs (walker, trial, h0, h1 per spin, Cholesky matrices, Green's "
                "function symbols) at enumerated shapes. Single-determinant/NOCI kinds: energy function with the Green's-function helper "
                "replaced by fresh symbols equals the Wick form; the helper is verified against (w (C^+ w)^-1)^T; the Wick lemma links the "
